@@ -134,7 +134,7 @@ impl ObjFileFormat for BinaryFormat {
 
             for (&addr, label) in &sym.rel_map {
                 bytes.push(0x04);
-                bytes.extend(u16::to_be_bytes(addr));
+                bytes.extend(u16::to_le_bytes(addr));
                 bytes.extend(u64::to_le_bytes(label.len() as u64));
                 bytes.extend_from_slice(label.as_bytes());
             }
